@@ -399,7 +399,7 @@ fn unfriendly_probe(r: &mut Rng, m: &Model) -> String {
                     let b = a.clone();
                     let _ = a.next();
                     let c = a.clone();
-                    drop((poll(a), poll(b), poll(c)));
+                    let _ = (poll(a), poll(b), poll(c));
                 }
             });
         }};
